@@ -1,4 +1,5 @@
 import Logrange.Proofs.Mixer
+import Logrange.Proofs.MixerGrow
 import Logrange.Proofs.MixTree
 import Logrange.Proofs.MixerErr
 import Logrange.Generated.C04
@@ -283,6 +284,68 @@ theorem cex_sticky_eof_hides_append :
   simp [It.drain, It.get, It.next, It.release, It.modifyLeaf, It.nleaves, MixSt.selectState, MixSt.fetch1, MixSt.fetch2,
     MixSt.choose, MixSt.out, MixSt.testFunc, getEarliest, Source.get, Source.next, Source.release, Leaf.get, Leaf.next,
     Leaf.release, Leaf.clamp, Leaf.append, Leaf.ev]
+
+/-! ## appends at arbitrary `Get`/`Next` boundaries -/
+
+/-- **appends to partitions the cursor has not exhausted are read in order, whenever they happen.** A cursor in any reachable
+state, either direction, at any point between two calls — no `Release` needed —; the partitions grow: every source `s` becomes
+`f s`, where a stream that still has something keeps its head (it is extended at its end) and a stream that has ended stays ended
+(`It.GrowsLive`; an append to an in-memory partition with undelivered records is one: `Leaf.append_growsLive`; a source that does
+not change is one: `It.GrowsLive.refl`). The mixers are not told, and need not be: the invariant holds for the grown tree as it
+stands, what `Get` showed before the append is still the head, and the continued read (with `Release` calls anywhere) is the
+attributed union of what the *grown* sources deliver alone — permutation, per-source order, time order. -/
+theorem appends_at_any_boundary (t : It σ) (h : t.WF) (f : σ → σ)
+    (hf : ∀ s ∈ t.leaves, It.GrowsLive s (f s))
+    (rel : Nat → Bool × Bool) (n : Nat) (hn : ((t.mapLeaves f).view).length < n) :
+    let t' := t.mapLeaves f
+    let read := t'.drainRel rel n 0
+    t'.WF ∧ t'.leaves = t.leaves.map f ∧ (∀ x, t.view.head? = some x → t'.view.head? = some x) ∧
+    read.Perm (t'.leaves.flatMap view) ∧
+    (∀ s ∈ t'.leaves, (view s).Sublist read) ∧
+    ((∀ s ∈ t'.leaves, (view s).Pairwise (ord t.dir)) → read.Pairwise (ord t.dir)) ∧
+    (∀ e ∈ read, ∃ s ∈ t'.leaves, e ∈ view s) := by
+  intro t' read
+  obtain ⟨gw, gd, _, gh, _⟩ := It.mapLeaves_grow_live f t h hf
+  have R := read_any_state t' gw rel n hn
+  simp only [show t'.dir = t.dir from gd] at R
+  exact ⟨gw, It.mapLeaves_leaves f _, gh, R.1, R.2.1, R.2.2.1, R.2.2.2⟩
+
+/-- **… and that is all the code gives in the middle of a page: a record appended to a partition the cursor HAS exhausted is not
+read in order before the next `Release`.** Partition 1 = `[1]`, partition 2 = `[5, 6, 8]`; the reader has taken `1` and been shown
+`5` (partition 1 was asked, answered `io.EOF`, its flag is set). Now `7` is appended to partition 1 — later than everything
+delivered and than the head shown. Read on without a `Release`: `5, 6, 8` and the end; the `7` comes only after the next `Release`,
+behind the `8`: the whole read is out of time order. Had the append happened behind a `Release` (`appends_between_pages`) the
+read would be `5, 6, 7, 8`; an append to the partition that has NOT ended (`9` to partition 2) is read in order at once. -/
+theorem cex_midpage_append_to_exhausted_partition :
+    let a : Leaf := ⟨1, [⟨1, 0⟩], 0, false⟩
+    let b : Leaf := ⟨2, [⟨5, 0⟩, ⟨6, 1⟩, ⟨8, 2⟩], 0, false⟩
+    let t1 : It Leaf := (It.init (.leaf a) (.leaf b)).get.1.next.get.1
+    let mid : It Leaf := t1.modifyLeaf (Leaf.append ⟨7, 1⟩) 0
+    t1.get.2 = some ⟨5, 0, 2⟩ ∧
+    mid.drain 9 = [⟨5, 0, 2⟩, ⟨6, 1, 2⟩, ⟨8, 2, 2⟩] ∧
+    mid.drainRel (fun k => (k == 3, false)) 9 0 = [⟨5, 0, 2⟩, ⟨6, 1, 2⟩, ⟨8, 2, 2⟩, ⟨7, 1, 1⟩] ∧
+    (t1.release.modifyLeaf (Leaf.append ⟨7, 1⟩) 0).drain 9 = [⟨5, 0, 2⟩, ⟨6, 1, 2⟩, ⟨7, 1, 1⟩, ⟨8, 2, 2⟩] ∧
+    (t1.modifyLeaf (Leaf.append ⟨9, 3⟩) 1).drain 9 = [⟨5, 0, 2⟩, ⟨6, 1, 2⟩, ⟨8, 2, 2⟩, ⟨9, 3, 2⟩] := by
+  decide +kernel
+
+-- non-vacuity of `appends_at_any_boundary`: the tree above (a selection pending, an `eof` flag set), `9` appended to the live
+-- partition 2, partition 1 untouched
+example : ∃ (t : It Leaf) (f : Leaf → Leaf), t.WF ∧ (∀ s ∈ t.leaves, It.GrowsLive s (f s)) ∧
+    (t.mapLeaves f).view = [⟨5, 0, 2⟩, ⟨6, 1, 2⟩, ⟨8, 2, 2⟩, ⟨9, 3, 2⟩] := by
+  refine ⟨It.mix { st := 2, eof1 := true, le2 := ⟨5, 0, 2⟩ } (.leaf ⟨1, [⟨1, 0⟩], 1, false⟩)
+      (.leaf ⟨2, [⟨5, 0⟩, ⟨6, 1⟩, ⟨8, 2⟩], 0, false⟩),
+    fun l => if l.tags = 2 then l.append ⟨9, 3⟩ else l, ?_, ?_, ?_⟩
+  · simp [It.WF, It.view, It.dir, It.settled, LawfulSource.wf, LawfulSource.view, LawfulSource.dir,
+      LawfulSource.settled, Leaf.wf, Leaf.view, Leaf.settled, Leaf.ev, sel]
+  · intro s hs
+    simp only [It.leaves, List.cons_append, List.nil_append, List.mem_cons, List.not_mem_nil, or_false] at hs
+    rcases hs with rfl | rfl
+    · simp only [show ¬ ((1 : Nat) = 2) by decide, if_false]
+      exact It.GrowsLive.refl _ (by simp [LawfulSource.wf, Leaf.wf])
+    · simp only [if_true]
+      exact Leaf.append_growsLive _ _ (by simp [LawfulSource.wf, Leaf.wf]) rfl
+        (by simp [LawfulSource.view, Leaf.view])
+  · simp [It.mapLeaves, It.view, LawfulSource.view, Leaf.view, Leaf.append, Leaf.ev, mergeSpec]
 
 /-! ## re-positioning a held cursor (`crsr.ApplyState`) -/
 
